@@ -1110,9 +1110,10 @@ func (ctx Ctx) coqRecurFunc(fullFuncName string, e *ast.Ident) coq.Expr {
 	if ctx.pkgPath != obj.Pkg().Path() {
 		return coq.GallinaIdent(fullFuncName)
 	}
-	fun := obj.(*types.Func)
+	// a method of an instantiated generic type has no scope of its own
+	fun := obj.(*types.Func).Origin()
 
-	if fun.Scope().Contains(e.Pos()) {
+	if sc := fun.Scope(); sc != nil && sc.Contains(e.Pos()) {
 		return coq.GallinaString(fullFuncName)
 	} else {
 		return coq.GallinaIdent(fullFuncName)
